@@ -131,6 +131,60 @@ pub fn string_pack_upto<const MAX: usize>(raw: &[u8; STR_RAW]) -> u32 {
     0
 }
 
+/// String packing with multi-byte characters: raw = [number of chars (<= MAXC), one selector byte per char]; a selector below
+/// 0x80 is that ASCII character (NUL excluded), the others pick a 2-, 3- or 4-byte character. The packed words hold exactly
+/// the string's UTF-8 bytes, little-endian, then NUL padding to the word boundary with at least one NUL.
+pub fn string_pack_utf8<const MAXC: usize>(raw: &[u8; STR_RAW]) -> u32 {
+    let n = raw[0] as usize;
+    if n > MAXC || n + 1 > STR_RAW {
+        return 1;
+    }
+    let mut s = String::new();
+    let mut j = 0;
+    while j < n {
+        let c = raw[1 + j];
+        if c == 0 {
+            return 1;
+        }
+        let ch = if c < 0x80 {
+            c as char
+        } else if c % 3 == 0 {
+            '\u{e9}'
+        } else if c % 3 == 1 {
+            '\u{20ac}'
+        } else {
+            '\u{1f600}'
+        };
+        s.push(ch);
+        j += 1;
+    }
+    let len = s.len();
+    let mut bytes = [0u8; 4 * STR_RAW];
+    let mut k = 0;
+    while k < len {
+        bytes[k] = s.as_bytes()[k];
+        k += 1;
+    }
+    let op = core::mem::ManuallyDrop::new(dr::Operand::LiteralString(s));
+    let words = core::mem::ManuallyDrop::new(op.assemble());
+    if words.len() != len / 4 + 1 {
+        return E_STR_WORDS;
+    }
+    let mut k = 0;
+    while k < 4 * words.len() {
+        let byte = (words[k / 4] >> (8 * (k % 4))) as u8;
+        if k < len {
+            if byte != bytes[k] {
+                return E_STR_BYTES;
+            }
+        } else if byte != 0 {
+            return E_STR_PADDING;
+        }
+        k += 1;
+    }
+    0
+}
+
 pub const WORDS_RAW: usize = 17;
 
 /// `parse_words` reinterprets &[u32] as bytes (unsafe): the byte view has 4n bytes, the words decode to themselves.
